@@ -25,6 +25,9 @@ RULE = (
     "program is re-evaluated with equal bindings. distinct_nontrivial = distinct (previous operation, evaluation) contexts in which the evaluation was preceded by "
     "an operation on a different environment, program or bindings."
 )
+TECHNIQUE = (
+    "runtime monitoring: operation histories (environments, programs, evaluations, failures) with every outcome compared to the same operation in a pristine process (fork server, cross-checked against fresh interpreters)"
+)
 ASSUMPTIONS = [
     "only outcomes and the caller's dict are verdict-bearing; snapshots of the parser singleton and module globals are evidence",
     "this is the only check whose workers do NOT create a CompiledRunner environment first (that order dependence is what it explores)",
